@@ -102,7 +102,7 @@ def _foreign_method(ctx, f: FuncInfo, call: ast.Call) -> FuncInfo | None:
     # only bookkeeping methods: a private method, or a method of the record that carries the sleep buffers
     if not ((h.name.startswith("_") and not h.name.startswith("__")) or _carries_buffers(h.cls)):
         return None
-    if any(isinstance(n, (ast.Await, ast.Yield, ast.YieldFrom)) for n in ast.walk(h.node)):
+    if any(isinstance(n, ast.Await) for n in ast.walk(h.node)):
         return None
     return h
 
@@ -248,12 +248,14 @@ def inline(ctx, f: FuncInfo, want: Callable[[FuncInfo], bool] | None = None) -> 
     inlined_funcs: list[FuncInfo] = []
     caller_names = set(f.params) | _names_bound(f.node)
 
-    def expand(st: ast.stmt, depth: int, active: tuple) -> list[ast.stmt] | None:
+    def expand(st: ast.stmt, depth: int, active: tuple, allow_gen: bool = False) -> list[ast.stmt] | None:
         hit = _call_in(st)
         if hit is None or depth >= MAX_DEPTH:
             return None
         form, call, tgt = hit
         h = _helper_of(ctx, f, call)
+        if h is not None and not allow_gen and not h.node.decorator_list and any(isinstance(n_, (ast.Yield, ast.YieldFrom)) for n_ in ast.walk(h.node)):
+            return None  # calling a generator function runs nothing of its body (see for_generator_helper)
         ctor_chain = h is not None and h.name == "__init__" and f.name == "__init__" and isinstance(call.func, ast.Attribute) and call.func.attr == "__init__"
         is_nested = h is not None and h.parent is not None and getattr(h.parent, "node", None) is getattr(f, "node", None) or (h is not None and h.name in (getattr(f, "nested", None) or {}) and f.nested[h.name] is h)
         if h is None or not (want(h) or ctor_chain or is_nested) or h in active:
@@ -534,6 +536,11 @@ def inline(ctx, f: FuncInfo, want: Callable[[FuncInfo], bool] | None = None) -> 
                 w2 = with_item_helper(st)
                 if w2 is not None:
                     st = w2
+            if isinstance(st, ast.For) and depth < MAX_DEPTH:
+                fg = for_generator_helper(st, depth, active)
+                if fg is not None:
+                    new.extend(rebuild(fg, depth + 1, active))
+                    continue
             if isinstance(st, (ast.For, ast.AsyncFor)) and depth < MAX_DEPTH:
                 pair = iter_expr_helper(st)
                 if pair is not None:
@@ -541,6 +548,85 @@ def inline(ctx, f: FuncInfo, want: Callable[[FuncInfo], bool] | None = None) -> 
                     st = pair[1]
             new.append(rebuild_node(st, depth, active))
         return new
+
+    def for_generator_helper(st, depth, active):
+        """`for x in gen(args): BODY` with gen a generator helper that has one `yield <v>` statement, outside any try /
+        with, and no return: the helper's body written out with `x = <v>; BODY` in place of the yield.  BODY must not
+        leave the loop with break / continue (a return or an exception leaves both the loop and the abandoned generator,
+        which has no cleanup to run)."""
+        c = st.iter
+        if not isinstance(c, ast.Call) or st.orelse:
+            return None
+        h = _helper_of(ctx, f, c)
+        if h is None or h.is_async or h is f or h in active or h.node.decorator_list or not want(h):
+            return None
+        ys = [n for n in ast.walk(h.node) if isinstance(n, (ast.Yield, ast.YieldFrom))]
+        if len(ys) != 1 or not isinstance(ys[0], ast.Yield) or ys[0].value is None:
+            return None
+        if any(isinstance(n, (ast.Return, ast.Try, ast.With, ast.AsyncWith, ast.FunctionDef, ast.AsyncFunctionDef, ast.Lambda)) for b in h.node.body for n in ast.walk(b)):
+            return None
+
+        def leaves(stmts, in_loop=False):
+            for x in stmts:
+                if isinstance(x, (ast.Break, ast.Continue)) and not in_loop:
+                    return True
+                if isinstance(x, (ast.FunctionDef, ast.AsyncFunctionDef)):
+                    continue
+                inner = in_loop or isinstance(x, (ast.For, ast.AsyncFor, ast.While))
+                for fld in ("body", "orelse", "finalbody"):
+                    sub_ = getattr(x, fld, None)
+                    if isinstance(sub_, list) and sub_ and isinstance(sub_[0], ast.stmt) and leaves(sub_, inner if fld == "body" else in_loop):
+                        return True
+                for hd in getattr(x, "handlers", []) or []:
+                    if leaves(hd.body, in_loop):
+                        return True
+            return False
+
+        if leaves(st.body):
+            return None
+        synth = ast.copy_location(ast.Expr(value=c), st)
+        old_par = parents.get(c)
+        parents[c] = synth
+        try:
+            out = expand(synth, depth, active, allow_gen=True)
+        finally:
+            if old_par is not None:
+                parents[c] = old_par
+        if out is None:
+            return None
+        hits = [0]
+
+        def put(stmts):
+            res = []
+            for x in stmts:
+                if isinstance(x, ast.Expr) and isinstance(x.value, ast.Yield):
+                    hits[0] += 1
+                    asg = ast.copy_location(ast.Assign(targets=[st.target], value=x.value.value), x)
+                    parents[asg] = parents.get(x)
+                    res.append(asg)
+                    res.extend(st.body)
+                    continue
+                x2 = x
+                for fld in ("body", "orelse"):
+                    sub_ = getattr(x, fld, None)
+                    if isinstance(sub_, list) and sub_ and isinstance(sub_[0], ast.stmt):
+                        new_sub = put(sub_)
+                        if new_sub != sub_:
+                            if x2 is x:
+                                x2 = copy.copy(x)
+                                if x in parents:
+                                    parents[x2] = parents[x]
+                            setattr(x2, fld, new_sub)
+                            for ch_ in new_sub:
+                                parents[ch_] = x2
+                res.append(x2)
+            return res
+
+        out2 = put(out)
+        if hits[0] != 1 or any(isinstance(n, (ast.Yield, ast.YieldFrom)) for b in out2 for n in ast.walk(b) if n is not None and any(n is y_ for y_ in ys)):
+            return None
+        changed[0] = True
+        return out2
 
     def iter_expr_helper(st):
         """`for x in helper(a).items():` with helper a one-expression function (`return <expr>`): the expression in
